@@ -37,6 +37,7 @@ func runC17(c *Ctx) {
 	ruleNoLoopVarCapture(c, "C17.13", "storage", "engine")
 	ruleReplayUnconditional(c, "C17.14")
 	ruleListEveryDB(c, "C17.15")
+	c04FlushOrder(c, "C17.16")
 }
 
 func c17Paths(c *Ctx, rule string) {
